@@ -2003,24 +2003,33 @@ def main(run):
     run.assumptions += ["floats are modelled only in the flag and the angle dispatch; operators are exact (rotation gates mean their exact multiple of pi/2)",
                         "PauliNoiseChannel, execute_circuit_repeated and collapsing measurements are outside the Coq model (collapse observed by a test)",
                         "stim is an external simulator (compared, not verified)"]
-    sec_constants(run)
-    tr = sec_translate(run)
+    import time as _time
+    walls = {}
+
+    def timed(name, fn, *args):
+        t0 = _time.time()
+        r_ = fn(*args)
+        walls[name] = round(_time.time() - t0, 1)
+        return r_
+    timed("constants", sec_constants, run)
+    tr = timed("translate+bridge", sec_translate, run)
     fnames = tr.order if tr is not None else list(STATIC_OP)
-    sec_static(run)
-    sec_float_validation(run, rng)
-    sec_flag_sweep(run)
-    sec_flag_witnesses(run)
-    sec_flags(run)
-    sec_flag_exact(run)
-    sec_probes(run, rng, fnames)
-    sec_matrices(run)
-    sec_circuits(run, rng)
-    sec_reject(run, rng)
-    sec_collapse(run, rng)
-    sec_repeated(run)
-    sec_shots(run, rng)
-    sec_stim(run, rng)
-    sec_to_circuit(run, rng)
+    timed("static", sec_static, run)
+    timed("float_validation", sec_float_validation, run, rng)
+    timed("flag_sweep", sec_flag_sweep, run)
+    timed("flag_witnesses", sec_flag_witnesses, run)
+    timed("flags", sec_flags, run)
+    timed("flag_exact", sec_flag_exact, run)
+    timed("probes", sec_probes, run, rng, fnames)
+    timed("matrices", sec_matrices, run)
+    timed("circuits+measure", sec_circuits, run, rng)
+    timed("reject", sec_reject, run, rng)
+    timed("collapse", sec_collapse, run, rng)
+    timed("repeated", sec_repeated, run)
+    timed("shots", sec_shots, run, rng)
+    timed("stim", sec_stim, run, rng)
+    timed("to_circuit", sec_to_circuit, run, rng)
+    run.notes["section_wall_s"] = walls
     run.notes.pop("reported_keys", None)
     run.axioms.discard("Axioms")
     return run.finish(level="proof", rule=RULE_TEXT)
